@@ -230,9 +230,15 @@ class DictReader:
             _seen = (*_seen, reference)
 
             ref_changed_through_recursion = False
+            _tried: set[str] = set()
             while re.search(
                 pattern=r"\$", string=str(value)
             ):  # resolve nested references, if existing, through recursion
+                if str(value) in _tried:
+                    # resolving this reference led back to itself (e.g. via an indexed list element): not resolvable
+                    value = None
+                    break
+                _tried.add(str(value))
                 reference = str(value)
                 ref_changed_through_recursion = True
                 value = DictReader._resolve_reference(
